@@ -84,6 +84,36 @@ class Norm:
                 ok = False
             if ok and changed and self._unchanged_only_without_affine_form(b, tb):
                 out[b.rec["path"]] = True
+        # wrappers that only hand *self (or the wrapped point) to a normaliser are normalisers
+        for _ in range(3):
+            grew = False
+            for b in self.F.fn_bodies():
+                ins = b.rec.get("inputs") or []
+                if b.rec["path"] in out or len(ins) != 1 or not ins[0].startswith("&mut ") or not (is_g(ins[0]) or is_wrapper(ins[0])):
+                    continue
+                fin = self.repo.tb(b).final_value(("deref", 1))
+                al = list(alts(fin))
+                if not al:
+                    continue
+                good = True
+                for a in al:
+                    v = a
+                    if v[0] == "update" and v[2] == (("f", 0),):
+                        v = v[3]
+                    if not (v[0] == "mutcall" and v[1].d in out and v[3] == 0 and len(v[2]) == 1):
+                        good = False
+                        break
+                    tgt = strip(v[2][0])
+                    while tgt[0] == "field" and tgt[2] == 0:
+                        tgt = strip(tgt[1])
+                    if tgt != ("init", ("deref", 1)):
+                        good = False
+                        break
+                if good:
+                    out[b.rec["path"]] = True
+                    grew = True
+            if not grew:
+                break
         return out
 
     def _unchanged_only_without_affine_form(self, b, tb):
@@ -237,6 +267,9 @@ class Norm:
                         path = b.rec["path"]
                         cur = self.req.get((path, p))
                         lvl = r["level"]
+                        # reached only where the parameter's z compared equal to one(): normalised (and not an identity) right here
+                        if self._guarded_z_one(b, tb, p, bi):
+                            continue
                         # a non-identity guard on the parameter that dominates this call discharges that half locally
                         if lvl == "norm+nonid" and self._guarded_nonzero(b, tb, [("param", p), ("init", ("deref", p))], bi):
                             lvl = "norm"
@@ -244,6 +277,41 @@ class Norm:
                             self.req[(path, p)] = {"level": lvl, "why": "passes `%s` (unchanged up to z-preserving maps) to %s (param %d)" % (b.local_name(p), d, ai + 1),
                                                    "direct": False, "via": (d, ai + 1)}
                             changed = True
+
+    def _guarded_z_one(self, b, tb, p, bi):
+        """every path of `b` that reaches block `bi` answered `param.z == one()` with equal (finite enumeration of the branch atoms)"""
+        key = (b.rec["path"], p, bi)
+        cache = self.__dict__.setdefault("_gz1", {})
+        if key in cache:
+            return cache[key]
+        cache[key] = False
+        try:
+            atoms = paths.collect_atoms(b, tb)
+        except Exception:
+            return False
+        if len(atoms) > 10:
+            return False
+        bases = (("param", p), ("init", ("deref", p)))
+        targets = []
+        for a in atoms:
+            if a[0] != "ord":
+                continue
+            for x, y in ((a[1], a[2]), (a[2], a[1])):
+                x, y = strip(x), strip(y)
+                if x[0] == "field" and x[2] == 2 and strip(x[1]) in bases and y[0] == "call" and y[1].name == "one" and not y[2]:
+                    targets.append(a)
+        if not targets:
+            return False
+        reached = False
+        for asg in paths.enumerate_assignments(atoms):
+            res = paths.simulate(b, tb, paths.Evaluator(asg))
+            if bi not in res.blocks:
+                continue
+            reached = True
+            if not any(asg.get(t_) == "E" for t_ in targets):
+                return False
+        cache[key] = reached
+        return reached
 
     # -------------------------------------------------------------- z-preserving maps
     def z_preserving(self, d):
@@ -299,6 +367,11 @@ class Norm:
             if not n and self._normalised_or_identity(body, tb, a, [x[3] for x in res if x[0]], site_bb):
                 n = True
                 d += " (reaches the call only over an is_zero edge; normalised otherwise)"
+            if not n or not z:
+                bp = self.base_param(body, a)
+                if bp is not None and self._guarded_z_one(body, tb, bp, site_bb):
+                    n = z = True
+                    d += " (reaches the call only where its z compared equal to one())"
             norm_all &= n
             nonid_all &= z
             descs.append(d)
